@@ -234,6 +234,12 @@ def run_machine(ctx, machine_cls, max_examples, steps, label='', shrink=True):
         ctx.violation(holder.get('history', []), str(v), v.clause)
         return False
     except Exception as e:  # pylint: disable=broad-except
+        from hypothesis.errors import Flaky
+        if isinstance(e, Flaky) and 'violation' in holder:
+            hist, msg, clause = holder['violation']
+            ctx.violation(hist, msg + '\n(not reproduced on every re-execution: the code under test behaved '
+                          'non-deterministically for this history)', clause)
+            return False
         tb = sys.exc_info()[2]
         if _from_src(tb) and 'history' in holder:
             ctx.violation(holder['history'], 'unexpected %s from the code under test: %s\n%s' % (
